@@ -281,30 +281,123 @@ theorem C13_library_partial (cfg : ClientCfg) (set : List Version) (m : Version)
     adopt cfg (.library set) = .ok m ↔ MaxCommon (clientList cfg) (serverSet set) m :=
   library_with_11 cfg set henf h11 m
 
-/-! ### 6. every later request carries the adopted version -/
+/-! ### 6. every later request carries the adopted version
 
-/-- After a successful `Dial`, every request header built by `BatchOpt` — on the client or on any
-    (clone of a …) clone, with any batch options, for any sequence of calls — carries the adopted version,
-    and its batch count is the number of payloads. -/
-theorem later_requests_carry_version (t : Tables) (cfg : ClientCfg) (sb : ServerBehaviour) (c : Client)
-    (_h : dial t cfg sb = .ok c) (calls : List Call) :
-    ∀ hd, hd ∈ run c calls → hd.version = c.version :=
-  run_version c calls
+  `Client.version` is a POINTER (`Model/Negotiate.lean`, "the mutable pointer"): the statements below are
+  about the store of version variables and about everything that may run after `Dial` — requests with any
+  number of payloads and any batch options, connections lost and re-established (`reconnect` does not
+  negotiate again), clones and clones of clones (also of a closed client), `Close` — in any order. -/
 
+/-- After a successful negotiating `Dial` (fresh program state), for EVERY sequence of later steps in which
+    no other code of the program assigns the exported variable `kmip.V1_0`: the version variable of the
+    client holds the version `dial` adopted, and every request header put on the wire — by the client, after
+    any reconnection, or by any clone — carries it. -/
+theorem later_requests_carry_version (t : Tables) (calls : List (List Version)) (sb : ServerBehaviour)
+    (s' : Store) (c : MClient) (h : dialM t Store.init calls none sb = .ok (s', c))
+    (steps : List Step) (hsteps : ∀ st ∈ steps, st.isAssign = false) :
+    (∃ sup, dial t { calls := calls, enforce := none } sb = .ok { version := s'.val c.ver, supported := sup }) ∧
+    ∀ out ∈ runM { store := s', clients := [c] } steps, out.2.version = s'.val c.ver := by
+  obtain ⟨hd, hwf⟩ := dialM_spec t Store.init calls sb s' c (by decide) rfl h
+  refine ⟨hd, ?_⟩
+  apply runM_version _ steps _ hwf _ (.inr hsteps)
+  intro x hx
+  simp only [List.mem_cons, List.not_mem_nil, or_false] at hx
+  rw [hx]
+
+/-- Outside the 1.0 fallback the client's variable is a fresh one, which nothing else can reach: the
+    conclusion then holds for ALL step sequences, assignments to `kmip.V1_0` included. -/
+theorem later_requests_carry_version_unaliased (t : Tables) (calls : List (List Version)) (sb : ServerBehaviour)
+    (s' : Store) (c : MClient) (h : dialM t Store.init calls none sb = .ok (s', c))
+    (hnf : ∀ bi, respond sb discoverHeader (clientList { calls := calls, enforce := none }) = .msg 1 [bi] →
+      ¬ (bi.status = statusFailed ∧ bi.reason = reasonNotSupported))
+    (steps : List Step) :
+    ∀ out ∈ runM { store := s', clients := [c] } steps, out.2.version = s'.val c.ver := by
+  obtain ⟨_, hwf⟩ := dialM_spec t Store.init calls sb s' c (by decide) rfl h
+  apply runM_version _ steps _ hwf _ (.inl (dialM_noAlias t Store.init calls sb s' c (by decide) h hnf))
+  intro x hx
+  simp only [List.mem_cons, List.not_mem_nil, or_false] at hx
+  rw [hx]
+
+/-- An enforced version: the client holds the pointer of the `EnforceVersion` option (no exchange); every
+    later request of the client and of its clones carries the enforced version, for ALL step sequences. -/
+theorem later_requests_enforced (t : Tables) (calls : List (List Version)) (sb : ServerBehaviour) (v : Version)
+    (steps : List Step) :
+    ∃ s c, dialM t (enforceOption Store.init v).1 calls (some (enforceOption Store.init v).2) sb = .ok (s, c) ∧
+      s.val c.ver = v ∧ ∀ out ∈ runM { store := s, clients := [c] } steps, out.2.version = v := by
+  refine ⟨(enforceOption Store.init v).1,
+    { ver := (enforceOption Store.init v).2, supported := clientList { calls := calls, enforce := none } }, rfl, ?_, ?_⟩
+  · simp [enforceOption, Store.alloc, Store.init]
+  · apply runM_version v steps
+    · refine ⟨by simp [enforceOption, Store.alloc, Store.init], ?_⟩
+      intro x hx
+      simp only [List.mem_cons, List.not_mem_nil, or_false] at hx
+      subst hx
+      simp [enforceOption, Store.alloc, Store.init]
+    · intro x hx
+      simp only [List.mem_cons, List.not_mem_nil, or_false] at hx
+      subst hx
+      simp [enforceOption, Store.alloc, Store.init]
+    · refine .inl ?_
+      intro x hx
+      simp only [List.mem_cons, List.not_mem_nil, or_false] at hx
+      subst hx
+      simp [enforceOption, Store.alloc, Store.init, addrV10]
+
+/-- The hypothesis of `later_requests_carry_version` cannot be dropped: in the 1.0 fallback
+    `negotiateVersion` stores `&kmip.V1_0`, so a program that assigns this exported variable changes the version
+    of every client connected through the fallback (here: adopted 1.0, next request sent as 9.9). -/
+theorem fallback_aliases_exported_variable :
+    ∃ (s' : Store) (c : MClient),
+      dialM pinnedTables Store.init [[v12, v10]] none (.scripted (notSupported 0x1E [])) = .ok (s', c) ∧
+      s'.val c.ver = v10 ∧
+      (runM { store := s', clients := [c] } [.assignV10 (9, 9), .request 0 1 []]).map (·.2.version) = [(9, 9)] :=
+  ⟨Store.init, { ver := addrV10, supported := clientList { calls := [[v12, v10]], enforce := none } }, by rfl, by rfl, by rfl⟩
+
+/-- non-vacuity: a run with a reconnection, a batch with options, clones of clones and a closed parent. -/
+example : ∃ (s' : Store) (c : MClient),
+    dialM pinnedTables Store.init [[v13, v10]] none (.scripted (answers [v10, v13, v14])) = .ok (s', c) ∧
+    (runM { store := s', clients := [c] }
+      [.request 0 1 [], .connLost 0, .request 0 3 [2], .clone 0, .request 1 1 [], .close 0, .request 0 1 [],
+       .request 1 2 [], .clone 1, .connLost 2, .request 2 1 []]).map (fun o => (o.1, o.2.version, o.2.batchCount)) =
+      [(0, v13, 1), (0, v13, 3), (1, v13, 1), (1, v13, 2), (2, v13, 1)] :=
+  ⟨(Store.init.alloc v13).1, { ver := 1, supported := clientList { calls := [[v13, v10]], enforce := none } },
+    by rfl, by rfl⟩
+
+/-- the header a client builds: its version and the number of payloads. -/
 theorem request_header (c : Client) (n : Nat) (opts : List Nat) :
     (batchOptHeader c n opts).version = c.version ∧ (batchOptHeader c n opts).batchCount = n :=
   batchOptHeader_version c n opts
 
-theorem clone_version (c : Client) : (clone c).version = c.version := rfl
+/-! ### 7. the 31 × 32 table of the property's quantifier, against the PROPERTY's expected result
 
-example : (run { version := v13, supported := [v13] } [.batch 1 [], .clone, .batch 2 [1], .clone, .batch 1 []]).map
-    (·.version) = [v13, v13, v13] := by decide
+  `expected c s` is what the property demands (highest common version, failure when there is none — an
+  independent specification, `specMax`). The table is evaluated by the kernel: on every row that is not a
+  finding row the model gives exactly the expected result; the finding rows — a common version exists but the
+  server's set lacks 1.1 — all fail (open finding `nego:server-without-1.1-rejects-discovery`). There are
+  350 finding rows among the 31 × 32 = 992. -/
 
-/-! ### 7. the 31 × 32 table (a corollary; evaluated here against an independent specification) -/
+theorem table_31x32 :
+    (sublists defaultVersions).length = 32 ∧ countRows (fun _ _ => true) = 992 ∧ tableOk = true ∧
+    countRows findingRow = 350 := by
+  refine ⟨by decide, by decide +kernel, by decide +kernel, by decide +kernel⟩
 
-theorem table_31x32 : (sublists defaultVersions).length = 32 ∧ tableOk = true := by
+/-- the carve-out is exactly the finding: a row is carved out iff a common version exists and 1.1 is not in
+    the server's (effective) set; on such a row the property's expected result is a success. -/
+theorem finding_row_iff (c s : List Version) :
+    findingRow c s = true ↔
+      (v11 ∉ (if s.isEmpty then defaultVersions else s) ∧ ∃ m, expected c s = .ok m) := by
+  unfold findingRow expected
+  simp only [Bool.and_eq_true, Bool.not_eq_true', List.contains_eq_mem, decide_eq_false_iff_not]
   constructor
-  · decide
-  · decide +kernel
+  · intro ⟨h1, h2⟩
+    refine ⟨h1, ?_⟩
+    cases hm : specMax c (if s.isEmpty then defaultVersions else s) with
+    | none => rw [hm] at h2; simp at h2
+    | some m => exact ⟨m, rfl⟩
+  · intro ⟨h1, m, h2⟩
+    refine ⟨h1, ?_⟩
+    cases hm : specMax c (if s.isEmpty then defaultVersions else s) with
+    | none => rw [hm] at h2; cases h2
+    | some m => simp
 
 end Kmip.C13
